@@ -35,12 +35,12 @@ RELEVANT = {
 }
 
 ARGS = {
-    ("C01", "quick"): ["-modes", "paths,classes,reentrant,sequence,shapes,random", "-sequence-random", "15", "-shape-pipelines", "3", "-random", "300"],
-    ("C01", "thorough"): ["-modes", "paths,classes,reentrant,sequence,shapes,random,cancel", "-sequence-random", "200", "-shape-pipelines", "3", "-random", "4000", "-cancel-random", "10", "-cancel-reps", "2"],
-    ("C02", "quick"): ["-modes", "paths,classes,sequence,thresholds,cancel", "-sequence-random", "15", "-thr-pipelines", "3", "-cancel-random", "2"],
+    ("C01", "quick"): ["-modes", "paths,classes,reentrant,twosend,sequence,shapes,random", "-twosend-reps", "1", "-sequence-random", "15", "-shape-pipelines", "3", "-random", "300"],
+    ("C01", "thorough"): ["-modes", "paths,classes,reentrant,twosend,sequence,shapes,random,cancel", "-sequence-random", "200", "-shape-pipelines", "3", "-random", "4000", "-cancel-random", "10", "-cancel-reps", "2"],
+    ("C02", "quick"): ["-modes", "paths,classes,unprintable,sequence,thresholds,cancel", "-sequence-random", "15", "-thr-pipelines", "3", "-cancel-random", "2"],
     ("C02", "thorough"): ["-modes", "paths,classes,reentrant,sequence,thresholds,cancel,random", "-sequence-random", "200", "-thr-pipelines", "4", "-cancel-random", "12", "-cancel-reps", "3", "-random", "1500"],
-    ("C03", "quick"): ["-modes", "paths,classes,reentrant,stress,twosend,cancel,random", "-twosend-reps", "3", "-cancel-random", "6", "-random", "150"],
-    ("C03", "thorough"): ["-modes", "paths,classes,reentrant,stress,twosend,sequence,cancel,random,shapes", "-stress-ms", "6000", "-twosend-reps", "8", "-twosend-gates", "4", "-sequence-random", "100", "-cancel-random", "40", "-cancel-reps", "4", "-random", "2500", "-shape-pipelines", "3"],
+    ("C03", "quick"): ["-modes", "paths,classes,reentrant,unprintable,callbacks,stress,twosend,cancel,random", "-twosend-reps", "3", "-cancel-random", "6", "-random", "150"],
+    ("C03", "thorough"): ["-modes", "paths,classes,reentrant,unprintable,callbacks,stress,twosend,sequence,cancel,random,shapes", "-stress-ms", "6000", "-twosend-reps", "8", "-twosend-gates", "4", "-sequence-random", "100", "-cancel-random", "40", "-cancel-reps", "4", "-random", "2500", "-shape-pipelines", "3"],
 }
 
 ASSUMPTIONS = [
